@@ -162,3 +162,100 @@ contract(F + "Alignment.take_until_limit",
                                 "forall(k, 0, nU, 0 <= PI[k] and PI[k] < nU and SRT[k] == self.unitary_alignments[PI[k]])",
                                 "forall(k, 0, nU, forall(k2, 0, k, PI[k2] != PI[k]))"])},
          serves={"C10"})
+
+# ------------------------------------------------------------------------------------------ validity checks  (C17)
+from .continuum import ITER_MACROS, ITER_LEMMAS, CONT   # noqa: E402
+from .speclib import RI  # noqa: E402,F401
+PairT = lambda: TupleOf(StrT(), UnitT())       # noqa: E731
+CHECK_MACROS = ITER_MACROS + [
+    Macro("L", [], "self.unitary_alignments"),
+    Macro("nL", [], "len(self.unitary_alignments)"),
+    Macro("width", ["t"], "len(self.unitary_alignments[t]._n_tuple)"),
+    Macro("real", ["t", "i"], "not isnone(self.unitary_alignments[t]._n_tuple[i][1])"),
+    Macro("holds", ["t", "i", "a", "u"], "self.unitary_alignments[t]._n_tuple[i][0] == a and "
+                                         "not isnone(self.unitary_alignments[t]._n_tuple[i][1]) and "
+                                         "some(self.unitary_alignments[t]._n_tuple[i][1]) == u"),
+    Macro("inrange", ["t", "i"], "0 <= t and t < nL() and 0 <= i and i < width(t)"),
+    Macro("once", ["a", "u"], "exists([t, i], inrange(t, i) and holds(t, i, a, u))"),
+    Macro("twice", ["a", "u"], "exists([t1, i1, t2, i2], inrange(t1, i1) and inrange(t2, i2) and (t1 != t2 or i1 != i2) and "
+                               "holds(t1, i1, a, u) and holds(t2, i2, a, u))"),
+    Macro("same_width", [], "forall(t, 0, nL(), width(t) == width(0))"),
+    # lexicographic order of slots
+    Macro("before", ["t1", "i1", "t2", "i2"], "t1 < t2 or (t1 == t2 and i1 < i2)"),
+    # the flattened list of real slots built by the second pair of loops, up to slot (tt, ii) exclusive
+    Macro("flat_upto", ["tt", "ii"],
+          "NAT == len(alignment_tuples) and "
+          "forall(k, 0, NAT, inrange(TOF[k], IOF[k]) and before(TOF[k], IOF[k], tt, ii) and "
+          "          holds(TOF[k], IOF[k], alignment_tuples[k][0], alignment_tuples[k][1])) and "
+          "forall(k1, 0, NAT, forall(k2, k1 + 1, NAT, before(TOF[k1], IOF[k1], TOF[k2], IOF[k2]))) and "
+          "forall([t, i], implies(inrange(t, i) and before(t, i, tt, ii) and real(t, i), "
+          "                        exists(k, 0, NAT, TOF[k] == t and IOF[k] == i)))"),
+]
+
+
+def lemmas_for(lemmas, expr):
+    """the continuum lemmas (stated about `self`) restated about another continuum expression"""
+    import re
+    r = lambda t: re.sub(r"\bself\b", expr, t)     # noqa: E731
+    return [Lemma(l.name, r(l.statement.text), method=l.method, binders=l.binders, hyps=[r(h.text) for h in l.hyps],
+                  pats=l.pats, hints=[r(h.text) for h in l.hints]) for l in lemmas]
+
+
+def check_contract(variant, cexpr, extra_requires):
+    """Alignment.check: returns normally iff every (annotator, unit) of the continuum is held by exactly one slot; SetPartitionError
+    otherwise (ValueError for unitary alignments of unequal widths, IndexError for an alignment without unitary alignment)"""
+    C = cexpr
+    part_ok = f"forall([(a, Real), (u, Unit)], implies(Us({C})[a][u], once(a, u) and not twice(a, u)))"
+    contract(F + "Alignment.check#" + variant,
+             params={"self": ALIGN(), "continuum": OptObjT(CONT())}, modifies=[],
+             macros=CHECK_MACROS + [Macro("C", [], C)],
+             lemmas=[],
+             locals={"alignment_tuples": PairT(), "continuum_tuples": PairT()},
+             ghost_vars={"TOF": ("AInt", None), "IOF": ("AInt", None), "NAT": ("Int", "0")},
+             requires=extra_requires + [
+                 f"RI({C})",
+                 "nL() >= 1",       # an alignment without unitary alignment: self.unitary_alignments[0] raises IndexError (DESIGN.md C17)
+                 # domain of the statement: a pair that is not a pair of the continuum is never held twice (the code rejects that too;
+                 # the statement's dichotomy speaks of the continuum's pairs only) - see DESIGN.md C17
+                 f"forall([(a, Real), (u, Unit)], implies(twice(a, u), Us({C})[a][u]))"],
+             raises={"ValueError": {"iff": "not same_width()"},
+                     "SetPartitionError": {"iff": f"same_width() and not {part_ok}"}},
+             ensures=[cl(part_ok, "C17", name="every-pair-of-the-continuum-held-exactly-once")],
+             loops={"L0": dict(match="for unit_align in self.unitary_alignments", index="t0",
+                               inv=["forall(t, 0, t0, width(t) == width(0))", "first_len == width(0)"]),
+                    "L1": dict(match="for annotator, unit in continuum", index="iU",
+                               inv=[f"forall([(a, Real), (u, Unit)], has(continuum_tuples, (a, u)) == (Us({C})[a][u] and flat({C}, a, u) < iU))"]),
+                    "L2": dict(match="for unitary_alignment in self.unitary_alignments", index="tU",
+                               inv=["flat_upto(tU, 0)"]),
+                    "L2.0": dict(match="for annotator, unit in unitary_alignment.n_tuple", index="iS",
+                                 inv=["flat_upto(tU, iS)"])},
+             hooks=[("before", "for annotator, unit in continuum: ...", f"model_inv wfmap({C})"),
+                    ("before", "alignment_tuples.append((annotator, unit))", "TOF = store(TOF, NAT, tU)"),
+                    ("before", "alignment_tuples.append((annotator, unit))", "IOF = store(IOF, NAT, iS)"),
+                    ("after", "alignment_tuples.append((annotator, unit))", "NAT = NAT + 1"),
+                    ("before", "alignment_tuples = list()",
+                     f"assert forall([(a, Real), (u, Unit)], implies(Us({C})[a][u], flat({C}, a, u) < NumUnits({C})))"),
+                    ("before", "alignment_tuples = list()",
+                     f"assert forall([(a, Real), (u, Unit)], has(continuum_tuples, (a, u)) == Us({C})[a][u])"),
+                    # nothing missing: every pair of the continuum sits at some position of the flattened list, hence in a slot
+                    ("before", "tuples_counts = Counter(alignment_tuples)",
+                     f"assert forall([(a, Real), (u, Unit)], implies(Us({C})[a][u], has(continuum_tuples, (a, u)) and "
+                     "not has(missing_tuples, (a, u)) and exists(k, 0, NAT, alignment_tuples[k][0] == a and alignment_tuples[k][1] == u)))"),
+                    ("before", "tuples_counts = Counter(alignment_tuples)",
+                     f"assert forall([(a, Real), (u, Unit)], implies(Us({C})[a][u], once(a, u)))"),
+                    # two distinct slots holding the same pair are two distinct positions of the flattened list
+                    ("after", "repeated_tuples = {...", "assert forall([(a, Real), (u, Unit)], implies(twice(a, u), "
+                     "exists([k1, k2], 0 <= k1 and k1 < k2 and k2 < NAT and alignment_tuples[k1][0] == a and alignment_tuples[k1][1] == u and "
+                     "alignment_tuples[k2][0] == a and alignment_tuples[k2][1] == u)))"),
+                    ("after", "repeated_tuples = {...", "assert forall([(a, Real), (u, Unit)], implies(twice(a, u), has(repeated_tuples, (a, u))))"),
+                    ("after", "repeated_tuples = {...", f"assert forall([(a, Real), (u, Unit)], implies(Us({C})[a][u] and twice(a, u), "
+                     f"has(repeated_tuples, (a, u))), pat=[Us({C})[a][u]])")],
+             serves={"C17"})
+
+
+check_contract("given", "some(continuum)", ["not isnone(continuum)"])
+check_contract("own", "some(self.continuum)", ["isnone(continuum)", "not isnone(self.continuum)"])
+contract(F + "Alignment.check#none", params={"self": ALIGN(), "continuum": OptObjT(CONT())}, modifies=[],
+         requires=["isnone(continuum)", "isnone(self.continuum)"],
+         raises={"ValueError": {"iff": "true()"}},
+         notes="no continuum anywhere: ValueError before anything is inspected", serves={"C17"})
